@@ -119,7 +119,10 @@ def handle : List String → Option String
     -- second generation: `s.*` = the compiled model that was the input, `o.*` = what the compiler wrote for it
     let src ← parseGraph toks "s"
     let out ← parseGraph toks "o"
-    let ps := ethosuVerbatimProblems src out
+    -- optional: arena offsets per tensor index, `s.plan=<o>,<o>…` and one list per plan entry of the output `o.plans=<o>,<o>…;<o>,…`
+    let splan ← parseInts (splitNE ((kv toks "s.plan").getD "") ",")
+    let oplans ← (splitNE ((kv toks "o.plans").getD "") ";").mapM fun l => parseInts (splitNE l ",")
+    let ps := ethosuVerbatimProblems src out ++ (if (kv toks "s.plan").isSome then ethosuPlacementProblems src out splan oplans else [])
     let stats := s!"ethosu_in={(src.ops.filter isEthosU).length} ethosu_out={(out.ops.filter isEthosU).length} new={ethosuNew src out}"
     if ps.isEmpty then some s!"ok {stats} n=0" else some (s!"bad {stats} n={ps.length} " ++ showProblems ps)
   | "reread" :: toks => do
